@@ -504,8 +504,9 @@ PROPS["C28"] = {
                    "after the first grant is the general reachable state cursor = start + k pages <= sentinel, so the second step is the inductive step): each grant is page-aligned, "
                    "inside [start, start+bytes), disjoint from the previous grant (hence, by induction, all live grants are pairwise disjoint), the request fails iff it does not fit, "
                    "reserved == committed == pages granted after each grant and a failed request leaves committed unchanged. Discontiguous over the real Map64 (default 64-bit layout, any "
-                   "space index): grants are page-aligned, inside the space of the descriptor and resolve to that descriptor in the VM map, disjoint, counters exact. Monotone resources never release individual grants, so 'live grants' = all grants.",
-    "bounds": ["two consecutive requests (inductive step); request sizes <= 2^25 pages (contiguous) / one chunk = 1024 pages (discontiguous)"],
+                   "space index): grants are page-aligned, inside the space of the descriptor and resolve to that descriptor in the VM map, disjoint, counters exact; a third harness runs THREE consecutive symbolic requests, so that pages "
+                   "bumped out of a chunk the resource never obtained from the VM map collide with the chunk the next growth obtains (pairwise disjointness of all three grants). Monotone resources never release individual grants, so 'live grants' = all grants.",
+    "bounds": ["two consecutive requests (inductive step), three for the discontiguous growth harness; request sizes <= 2^25 pages (contiguous) / one chunk = 1024 pages (discontiguous)"],
     "assumptions": ["single-threaded histories (the Mutex is taken but mutual exclusion is not what is verified)"],
     "trusted_base": ["std::sync::Mutex as modelled by Kani"],
     "not_covered": ["FreeListPageResource and BlockPageResource (need mmapper, VM threads, live spaces); their substrates are C26 (free lists) and C19 (block pool)",
@@ -548,7 +549,7 @@ PROPS["C34"] = {
                    "table of one block with symbolic block address, cursor (in the last 24 lines of a 128-line block; anywhere in a 32-line block in the thorough tier), current line mark state and last-full-GC state (both in 1..=127): the result is None iff no line "
                    "at/after the cursor is available, otherwise the first maximal run of available lines -- in particular no returned line carries the current or the last "
                    "full-GC mark; marking the lines of an object marks every line it spans, changes no other line mark and returns the number of newly marked lines "
-                   "(objects up to 1 KiB; up to a whole block for 32-line blocks in the thorough tier); block state set/get through the side table touches only that block's byte. "
+                   "(objects up to 1 KiB; up to a whole block for 32-line blocks in the thorough tier; also for a binding whose object reference lies 16 bytes above the object start, where the line holding only the header must be marked); block state set/get through the side table touches only that block's byte. "
                    "NOT reached: the state-cycling arithmetic inside ImmixSpace::prepare/release (needs a live space), so the >127-GC wrap argument rests on the unchecked assumption "
                    "that prepare keeps line_mark_state in 1..=127 and release copies it to line_unavail_state; level 'other'.",
     "bounds": ["Block::LINES = 128 (code constant; 32 with immix_smaller_block in the thorough tier)", "128-line blocks: hole-search cursor in the last 24 lines of the block, object size <= 1024 bytes for mark_lines_for_object (both tiers); 32-line blocks (immix_smaller_block, thorough tier): any cursor, objects up to a block"],
@@ -569,11 +570,12 @@ PROPS["C40"] = {
     "explanation": "BOUNDED (input length <= 5 quick / 7 thorough), complete within the bound: the real iterators are run over a slice of symbolic bytes of symbolic "
                    "length with key function x & m for a symbolic mask m (so every partition shape of <= 5 (7) items into runs occurs). Checked: the items yielded by the groups, in order, are exactly the input; each item's key equals "
                    "its group's reported key; each group is non-empty; reported len == number of items the group yields; adjacent groups have different "
-                   "keys; empty input yields no group. Generic `Iterator + Clone` code with FnMut closures is outside what Verus accepts for extraction, so the "
+                   "keys; empty input yields no group. The same obligations are checked with an underlying iterator whose size_hint is INEXACT "
+                   "(slice.iter().copied().filter(..), symbolic filter mask; input length <= 3 quick / 5 thorough), through a generic driver hook. Generic `Iterator + Clone` code with FnMut closures is outside what Verus accepts for extraction, so the "
                    "length bound remains and the level is 'other'.",
-    "bounds": ["input length <= 5 in the quick tier and <= 7 in the thorough tier (loops unwound to length + 3, unwinding assertions on)", "item type u8, key type u8 (the code is parametric in both)"],
+    "bounds": ["input length <= 5 in the quick tier and <= 7 in the thorough tier (loops unwound to length + 3, unwinding assertions on); filtered-iterator harness: <= 3 / <= 5", "item type u8, key type u8 (the code is parametric in both)"],
     "assumptions": ["key functions are pure (the harness' key is x & m)"],
-    "trusted_base": ["core::slice::Iter as compiled by Kani"],
+    "trusted_base": ["core::slice::Iter / core::iter::Filter / Copied as compiled by Kani"],
     "not_covered": ["inputs longer than 7 items (5 in the quick tier)", "impure key functions", "the Flatten-based instantiation used by the mmapper (a harness exists but CBMC does not finish it within 15 minutes even for 3 items; it is kept as an experiment and is not part of the check)"],
 }
 
@@ -589,12 +591,13 @@ PROPS["C19"] = {
                    "len == blocks held, iterate yields exactly the held blocks, replace exchanges the contents of the two queues without loss; at CAPACITY (256, code constant, concrete "
                    "loop) the next push is refused and returns the block. BlockPool with two workers and three symbolic blocks pushed by workers 0, 1, 0: len == blocks held, "
                    "iterate_blocks yields each once, worker-local blocks are not handed out before a flush, after flush_all every held block is popped exactly once, only pushed blocks "
-                   "are popped, and the pool is then empty. The overflow of a full worker-local queue inside BlockPool::push (257th push) is NOT covered: the harness for it "
-                   "(c19_pool_overflow_exp) does not finish within 45 minutes and is kept as an experiment only. Concurrent push/pop/flush histories -- the quantifier of the property -- are outside this family (Kani has no threads).",
+                   "are popped, and the pool is then empty. Overflow of a full worker-local queue inside BlockPool::push (THOROUGH tier only, about half an hour of CBMC): starting from a pool assembled "
+                   "by a construction-only hook around a queue filled through the real push_relaxed, the 257th push leaves len == 257, every held block (symbolic witness) and the new block held exactly once, "
+                   "and the handed-over queue poppable without a flush. A flush next to an already full global array is NOT covered (c19_pool_flush_next_to_full_array_exp aborts at the memory cap). Concurrent push/pop/flush histories -- the quantifier of the property -- are outside this family (Kani has no threads).",
     "bounds": ["sequential histories: 3 symbolic blocks / 2 workers", "BlockQueue::CAPACITY = 256 (code constant) for the queue-level capacity harness"],
     "assumptions": ["atomicity of the cursor fetch_update and the RwLock (sequential semantics)", "push_relaxed is only called by the owning worker (its safety contract)"],
-    "trusted_base": ["kani::stub of scheduler::worker::current_worker_ordinal (thread-local) and of core::hint::spin_loop (pause intrinsic)", "spin::RwLock as compiled by Kani"],
-    "not_covered": ["all concurrent histories", "BlockPool::push's overflow path (full worker-local queue handed to the global list)", "BlockPageResource::{alloc_pages, release_block} (need a VM map, mmapper and VM threads)"],
+    "trusted_base": ["kani::stub of scheduler::worker::current_worker_ordinal (thread-local) and of core::hint::spin_loop (pause intrinsic)", "spin::RwLock as compiled by Kani", "hook pool_with_local_queue: constructs a BlockPool around a pre-filled queue (count = its length); construction only"],
+    "not_covered": ["all concurrent histories", "BlockPool::push's overflow path in the QUICK tier (thorough tier only)", "flush / flush_all when an array of the global list is full or nearly full (seed C19-c)", "BlockPageResource::{alloc_pages, release_block} (need a VM map, mmapper and VM threads)"],
 }
 
 PROPS["C22"] = {
